@@ -41,6 +41,10 @@ CLAIMED["C18"] = ("Unbounded proof for the scenario generator's odometer (any nu
   "Partial claim: only the enumeration/count clause is decided. Trusted: go/ssa, SMT solvers, io.EOF != nil (axiom). Not decided: see clauses_not_decided (checkCommits verdict, scenario well-formedness from genPartitionScenarios, JSON round trip, Shuffle).",
   "contract-based deductive verification: WP over go/ssa + SMT (govc)", "DESIGN.md 3 C18")
 
+CLAIMED["C02"] = ("Unbounded proof of the soundness direction for every certificate shape and cluster size: VerifyQuorumCert / VerifyTimeoutCert / VerifyAggregateQC / VerifyPartialCert / VerifyAnyQC return nil only if the participant set has at least the quorum of the configured membership (Q(n) of C20), every participant's signature is valid over exactly the certified content (the stored block named by the hash, which carries the view the QC claims; the timed-out view; the signer's own timeout message with the QC it attested), and the high QC reported for an aggregate certificate is itself a valid QC; ECDSA/EdDSA verification rejects signer lists with a repeated signer (so size counts distinct replicas). Three genuine defects found by these obligations are fixed in /repo (relabelled QC view, repeated signer, nil timeout-certificate signature).",
+  "Trusted: signature primitives abstracted as an uninterpreted predicate sigvalid behind the crypto.Base interface contract (Verify/BatchVerify soundness), the per-signature checks of ECDSA/EdDSA run in goroutines and are not modelled; bytes-to-sign functions (Block/View/TimeoutMsg.ToBytes) trusted as functions of the object; Multi refinement axioms; BLS not under contract. Not decided: completeness (honestly assembled certificates verify), 'highest-view' among the attested QCs, membership of signers in the configuration. Known finding: VerifyAggregateQC nil signature panic.",
+  "contract-based deductive verification: WP over go/ssa + SMT (govc)", "DESIGN.md 3 C02")
+
 NA = {
  "C01": "cross-replica agreement over all schedules and Byzantine behaviours is a protocol-level inductive invariant over a distributed history; no contract on a function or object of one process can state it (DESIGN.md 3 C01)",
  "C05": "liveness / bounded progress under eventual synchrony is a property of whole executions of all replicas; partial-correctness contracts cannot state it (DESIGN.md 3 C05)",
